@@ -11,7 +11,7 @@ EXTENDS Lex, TValue
 
 HVScalarTypes == {"bool", "i8", "i16", "i32", "i64", "double", "string"}
 HVTypes == HVScalarTypes \cup {"list_i32", "list_string"}
-HVSources == {"query", "path", "header", "cookie", "form"}
+HVSources == {"query", "path", "header", "cookie", "form", "body"}     \* body: a member of the JSON body (api.body), read twice - two fields are mapped to the same member
 Code(ty) == CASE ty = "bool" -> T_BOOL [] ty = "i8" -> T_I8 [] ty = "i16" -> T_I16 [] ty = "i32" -> T_I32
               [] ty = "i64" -> T_I64 [] ty = "double" -> T_DBL [] OTHER -> T_STR
 Low(v8, w) == SubSeq(v8, 9 - w, 8)
@@ -31,7 +31,8 @@ Values(ty) == IF ty \in HVScalarTypes THEN ScalarValues(ty)
               ELSE {q \in UNION {[1..n -> ListElems(ty)] : n \in 1..3} : q # << <<>> >>}     \* (the text "" is "no value")
 \* what the transport (net/http) hands over unchanged: cookie values are limited to printable ASCII
 Ascii(bs) == \A i \in 1..Len(bs) : bs[i] < 127
-Deliverable(src, ty, v) == src # "cookie" \/ ((ty = "string" => Ascii(v)) /\ (ty = "list_string" => \A i \in 1..Len(v) : Ascii(v[i])))
+Deliverable(src, ty, v) == /\ (src # "cookie" \/ ((ty = "string" => Ascii(v)) /\ (ty = "list_string" => \A i \in 1..Len(v) : Ascii(v[i]))))
+                           /\ (src = "body" => ty \in HVScalarTypes)
 ElemType(ty) == IF ty = "list_i32" THEN "i32" ELSE "string"
 ExpectScalar(ty, v) == IF ty = "string" THEN Scalar(T_STR, v)
                        ELSE IF ty = "bool" THEN Scalar(T_BOOL, <<v[8]>>)
